@@ -23,7 +23,7 @@ RULE = (
     "positions GL == log10 of what the core returned. Non-trivial: (a) an instance with >=2 columns and a column with >=2 active "
     "reads; (b) a run with >=1 call that is not ./.; distinct by instance / run hash."
 )
-REQUIRED_COUNTERS = ["core_instances", "core_posteriors_compared", "pipeline_runs_ok", "calls_checked", "core_vs_vcf_checked"]
+REQUIRED_COUNTERS = ["core_instances", "core_posteriors_compared", "pipeline_runs_ok", "calls_checked", "core_vs_vcf_checked", "rule_evaluations"]
 ASSUMPTIONS = [
     "R <= 9 reads per brute-forced instance (2^R side vectors x dense forward-backward)",
     "calls whose maximum is within 1e-4 of the threshold or of the runner-up are counted as borderline and not judged for GT",
@@ -34,8 +34,45 @@ TOL = 1e-9
 
 def lanes(tier):
     if tier == "quick":
-        return [("core", "plain", 160), ("coresan", "san", 32), ("pipe", "plain", 64)]
-    return [("core", "plain", 3000), ("coresan", "san", 400), ("pipe", "plain", 1200)]
+        return [("core", "plain", 160), ("coresan", "san", 32), ("pipe", "plain", 64), ("rule", "plain", 16)]
+    return [("core", "plain", 3000), ("coresan", "san", 400), ("pipe", "plain", 1200), ("rule", "plain", 64)]
+
+
+def run_rule(idx, rng, counters):
+    """The GT decision rule itself (whatshap.cli.genotype.determine_genotype), on an exhaustive grid of likelihood
+    triples with exact ties and on random triples: GT = unique maximum above the threshold, none otherwise."""
+    from whatshap.cli.genotype import determine_genotype
+    from whatshap.core import PhredGenotypeLikelihoods
+
+    viol = []
+    grid = [0.0, 0.1, 0.2, 0.25, 0.3, 1 / 3, 0.4, 0.5, 0.6, 0.75, 0.9, 1.0]
+    triples = []
+    for a in grid:
+        for b in grid:
+            c = 1.0 - a - b
+            if c < -1e-12:
+                continue
+            triples.append((a, b, max(c, 0.0)))
+    triples += [(0.5, 0.5, 0.0), (0.5, 0.0, 0.5), (0.0, 0.5, 0.5), (1 / 3, 1 / 3, 1 / 3), (0.25, 0.5, 0.25), (0.4, 0.4, 0.2), (0.2, 0.4, 0.4), (0.4, 0.2, 0.4)]
+    for _ in range(300):
+        x = [rng.random() for _ in range(3)]
+        s_ = sum(x)
+        triples.append(tuple(v / s_ for v in x))
+    thresholds = [0.0, 0.3, 1 / 3, 0.5, 0.6, 0.9, 0.99, 1.0]
+    for k, t in enumerate(triples):
+        if k % 16 != idx % 16:
+            continue
+        for thr in thresholds:
+            g = determine_genotype(PhredGenotypeLikelihoods(list(t)), thr)
+            counters["rule_evaluations"] = counters.get("rule_evaluations", 0) + 1
+            m = max(t)
+            unique = sum(1 for v in t if v == m) == 1
+            want = t.index(m) if (unique and m > thr) else None
+            got = None if g.is_none() else g.get_index()
+            if got != want:
+                viol.append({"mech": "gt-rule", "msg": "determine_genotype(%r, threshold %.4f) = %r, rule gives %r" % (t, thr, got, want)})
+                return viol, True
+    return viol, True
 
 
 def gen_core(rng, lane):
@@ -259,7 +296,12 @@ def run_case(idx, rng, tier, lane):
     keys = set()
     viol = []
     sample = None
-    if lane == "pipe":
+    if lane == "rule":
+        v, nt = run_rule(idx, rng, counters)
+        viol += v
+        keys.add("rule-part-%d" % (idx % 16))
+        sample = {"lane": "rule", "part": idx % 16}
+    elif lane == "pipe":
         for j in range(4):
             v, nt, desc = run_pipe(rng, counters)
             for x in v:
